@@ -55,24 +55,25 @@ class Outcome:
         self.known = []
         self.nondet = []
         self.findings = vsim.load_findings().get(pid, {})
+        self.matched = {}	# listed finding -> violation keys of this run it covers
 
     def classify(self, key):
         """Returns the finding text if `key` is a listed known finding."""
         if key in self.findings:
+            self.matched.setdefault(key, []).append(key)
             return self.findings[key]
         for k in self.findings:
             if k.endswith("*") and key.startswith(k[:-1]):
+                self.matched.setdefault(k, []).append(key)
                 return self.findings[k]
         return None
 
     def report(self):
         """Print lines, return exit code."""
-        seen = set()
-        for k in self.known:
-            if k["key"] in seen:
-                continue
-            seen.add(k["key"])
-            vsim.say("KNOWN-FINDING: property=%s key=%s %s" % (self.pid, k["key"], k.get("text", "")))
+        for pat in sorted(self.matched):
+            ks = sorted(set(self.matched[pat]))
+            vsim.say("KNOWN-FINDING: property=%s key=%s %s [matched this run: %s]" %
+                     (self.pid, pat, self.findings[pat][:160], ", ".join(ks[:12]) + (" ..." if len(ks) > 12 else "")))
         for n in self.nondet:
             vsim.say("NONDETERMINISM property=%s %s" % (self.pid, n))
         for v in self.violations:
